@@ -46,7 +46,9 @@ PPL::Grid::Grid(const Grid& y, Complexity_Class)
     gen_sys = y.gen_sys;
   }
   else {
-    if (y.congruences_are_up_to_date()) {
+    // An empty grid keeps an inconsistent congruence system,
+    // even though it is not flagged as up to date.
+    if (y.marked_empty() || y.congruences_are_up_to_date()) {
       con_sys = y.con_sys;
     }
     else {
